@@ -6,7 +6,7 @@
 From Coq Require Import ZArith List String Ascii Bool.
 From Model Require Import PyBase Graph PeriodicTable Stereo Writer.
 From Gen Require Import Elements SmilesTables.
-From Proofs Require Import WriterProofs.
+From Proofs Require Import WriterProofs WriterProofsAtom WriterProofsTokens.
 Import ListNotations.
 Open Scope Z_scope.
 
@@ -55,3 +55,90 @@ Theorem C02_organic_symbols_tokenize :
   forallb (fun s => match from_symbol s with Some _ => true | None => false end) organic_set = true.
 Proof. exact organic_symbols_tokenize. Qed.
 Print Assumptions C02_organic_symbols_tokenize.
+
+(* ---- layer 1: bracket atoms.  atom_parse (the matcher for atom_re) inverts what _format_atom writes ---- *)
+
+(* the matcher, for every well-formed combination of the six groups of atom_re (isotope 1-3 digits not starting with 0,
+   one- or two-letter symbol, @ / @@, H / H1-H4, a charge spelling of charge_str, :1-4 digits) *)
+Theorem C02_parse_components : forall isoL iso symL stL st hL h chgL chg mapL mp,
+  iso_comp isoL iso -> sym_comp symL -> st_comp stL st -> h_comp hL h -> chg_comp chgL chg -> map_comp mapL mp ->
+  atom_parse_chars (isoL ++ symL ++ stL ++ hL ++ chgL ++ mapL) = Ok (parsed_of symL iso st h chg mp).
+Proof. exact parse_components. Qed.
+Print Assumptions C02_parse_components.
+
+(* all field values in the ranges of the pattern x all 118 element symbols (and the nine lower-case aromatic forms) *)
+Theorem C02_atom_body_roundtrip : forall e (arom : bool) iso st h chg mp,
+  In e elements -> (arom = true -> smem (lower_string (e_sym e)) aromatic_bracket_symbols = true) ->
+  iso_in_range iso -> h_in_range h -> -4 <= chg <= 4 -> map_in_range mp ->
+  atom_parse (atom_body iso (if arom then lower_string (e_sym e) else e_sym e) st h chg mp) =
+  Ok (mkParsed (if arom then 8 else 0) (e_sym e) (iso_val iso) mp chg (h_val h) st).
+Proof. exact atom_body_roundtrip. Qed.
+Print Assumptions C02_atom_body_roundtrip.
+
+(* the writer: whenever _format_atom (atom_fields) writes atom n of ANY molecule in brackets under ANY options, the text
+   between the brackets is parsed back into the atom's element (aromatic iff written in lower case), isotope, charge
+   (0 under !z), hydrogen count, the stereo mark written, and n as atom map under `m`.  The hypotheses are the ranges of
+   the reader's pattern; the two of them that real molecules can violate are the recorded findings below. *)
+Theorem C02_atom_token_roundtrip : forall g o tabs n adj a f e,
+  atom_of g n = Some a -> atom_fields g o tabs n adj = Ok f -> af_br f = true ->
+  In e elements -> from_number (a_num a) = Some e ->
+  (o_aromatic o = true -> hybridization g n = 4 -> smem (lower_string (e_sym e)) aromatic_bracket_symbols = true) ->
+  iso_in_range (a_iso a) -> h_in_range (a_h a) -> (o_mapping o = true -> 0 <= n <= 9999) ->
+  spell_atom f = scat ["["%string; scat [af_iso f; af_sym f; af_st f; af_h f; af_chg f; af_map f]; "]"%string] /\
+  atom_parse (scat [af_iso f; af_sym f; af_st f; af_h f; af_chg f; af_map f]) =
+  Ok (mkParsed (if o_aromatic o && (hybridization g n =? 4) then 8 else 0) (e_sym e) (iso_val (a_iso a))
+               (if o_mapping o then Some n else None)
+               (if o_charges o then a_chg a else 0)
+               (if String.eqb (af_h f) "" then 0 else h_val (a_h a))
+               (st_of_mark (af_st f))).
+Proof. exact atom_token_roundtrip. Qed.
+Print Assumptions C02_atom_token_roundtrip.
+
+(* non-vacuity: a bracket atom with every field set, written by the model and parsed back *)
+Theorem C02_atom_token_example :
+  let g := mkMol [(7, mkAtom 6 (Some 13) (-1) false (Some 2) None)] [(7, [])] in
+  atom_fields g (opts_of_spec "m") no_stabs 7 [(7, [])] =
+    Ok (mkAF true "13" "C" "" "H2" "-" ":7") /\
+  atom_parse "13CH2-:7" = Ok (mkParsed 0 "C" (Some 13) (Some 7) (-1) 2 None).
+Proof. exact atom_token_example. Qed.
+Print Assumptions C02_atom_token_example.
+
+(* the hypotheses are needed: the two recorded defects of the unchanged code, as facts about the reader's matcher
+   (replayed on the implementation by the check: keys aromatic-atom-of-element-without-lowercase-symbol, atom-map-above-9999) *)
+Theorem C02_atom_token_roundtrip_refuted_aromatic :
+  exists e p, In e elements /\ atom_parse (lower_string (e_sym e)) = Ok p /\ from_symbol (p_elem p) = None.
+Proof. exact aromatic_foreign_symbol_unreadable. Qed.
+Print Assumptions C02_atom_token_roundtrip_refuted_aromatic.
+
+Theorem C02_atom_token_roundtrip_refuted_map :
+  atom_parse "CH3:10000" = Err IncorrectSmiles /\ atom_parse "CH3:9999" = Ok (mkParsed 0 "C" None (Some 9999) 0 3 None).
+Proof. exact atom_map_limit. Qed.
+Print Assumptions C02_atom_token_roundtrip_refuted_map.
+
+(* ---- layer 2: the token stream.  _tokenize splits the concatenation of written tokens into exactly these tokens ---- *)
+
+(* the tokenizer never inspects the tokens it has already produced *)
+Theorem C02_tokenizer_frame : forall p l st, tk_loop (pre p st) l = lift p (tk_loop st l).
+Proof. exact (fun p l st => tk_loop_frame p l st). Qed.
+Print Assumptions C02_tokenizer_frame.
+
+(* for EVERY sequence of writer tokens (bare organic atoms, lower-case aromatic atoms, bracket atoms with any non-empty
+   bracket-free body, bond symbols, direction marks, closure numbers 1..99 as _format_closure writes them, parentheses,
+   dots) in which '(' is not directly followed by a closure number or a parenthesis *)
+Theorem C02_tokens_roundtrip : forall ts, wtoks_ok false ts = true -> tokenize (spellws ts) = Ok (map rt_of ts).
+Proof. exact tokens_roundtrip. Qed.
+Print Assumptions C02_tokens_roundtrip.
+
+Theorem C02_tokens_roundtrip_needs_side_condition :
+  tokenize (spellws [WBare "C"; WOpen; WClosure 1; WBare "C"; WClose; WBare "C"; WClosure 1]) = Err IncorrectSmiles.
+Proof. exact tokens_roundtrip_needs_side_condition. Qed.
+Print Assumptions C02_tokens_roundtrip_needs_side_condition.
+
+Theorem C02_tokens_roundtrip_example :
+  let ts := [WBare "C"; WOpen; WBond 2; WBare "O"; WClose; WBracket "O-"; WDot; WArom "C"; WClosure 1; WArom "C"; WArom "C";
+             WBracket "nH"; WArom "C"; WClosure 1; WClosure 12; WUpDown true; WBare "C"; WBond 2; WBare "C"; WUpDown false;
+             WBare "Cl"]%string in
+  wtoks_ok false ts = true /\ spellws ts = "C(=O)[O-].c1cc[nH]c1%12/C=C\Cl"%string /\
+  tokenize "C(=O)[O-].c1cc[nH]c1%12/C=C\Cl" = Ok (map rt_of ts).
+Proof. exact tokens_roundtrip_example. Qed.
+Print Assumptions C02_tokens_roundtrip_example.
